@@ -10,7 +10,14 @@ ID=${1:?usage: run.sh <Cxx> <quick|thorough> [--replay file]}
 TIER=${2:-${VERIF_TIER:-quick}}
 shift; [ $# -gt 0 ] && shift
 if [ -z "${VERIF_GO:-}" ]; then
-  VERIF_GO=$(cd "$REPO" && env -u GOTOOLCHAIN -u GOFLAGS GOFLAGS=-mod=mod go env GOROOT 2>/dev/null)/bin/go
+  # the repository's own toolchain (go.mod: toolchain / go directive), taken straight from the module
+  # cache when it is there: asking the bootstrap `go` to switch fails under GOSUMDB=off
+  want=$(awk '$1=="toolchain"{print $2}' "$REPO/go.mod" | head -1)
+  [ -n "$want" ] || want=go$(awk '$1=="go"{print $2}' "$REPO/go.mod" | head -1)
+  VERIF_GO=$(ls -d "$(env -u GOFLAGS go env GOMODCACHE 2>/dev/null || echo /root/go/pkg/mod)/golang.org/toolchain@v0.0.1-$want.linux-amd64/bin/go" 2>/dev/null | head -1)
+  if [ ! -x "${VERIF_GO:-}" ]; then
+    VERIF_GO=$(cd "$REPO" && env -u GOTOOLCHAIN -u GOFLAGS -u GOSUMDB -u GONOSUMDB -u GONOSUMCHECK GOFLAGS=-mod=mod go env GOROOT 2>/dev/null)/bin/go
+  fi
   [ -x "$VERIF_GO" ] || VERIF_GO=$(ls -d /root/go/pkg/mod/golang.org/toolchain@v0.0.1-go1.26.5.linux-amd64/bin/go 2>/dev/null)
 fi
 export VERIF_GO
